@@ -20,7 +20,7 @@ EXPLANATION = ('Bit-exact round trips of 2^32 / 2^64 values are properties of st
                'character classes and lengths: 0/1 alone or followed by a non-digit, true/false in any letter case -> value; another digit run '
                '-> std::out_of_range; anything else -> std::invalid_argument; every character read lies inside the text. R16.5 wide inputs are '
                'narrowed through Utf8::Encode before parsing and numbers are widened through Utf8::Decode after printing (same parser/printer '
-               'for all four character widths).')
+               'for all four character widths). R16.6 wide code units are not narrowed before being compared/classified.')
 ASSUMPTIONS = ['std::from_chars / std::to_chars implement [charconv]: ptr in [first, last], shortest round-trip output for floating types',
                'BITSERIALIZER_HAS_FLOAT_FROM_CHARS is 1 on this toolchain (the strtod fallback is not compiled and not analysed)']
 TRUSTED = ['clang 14 AST', 'bsfacts', 'bsv/linear.py']
@@ -164,6 +164,8 @@ class BoolModel(Model):
                 return Pos(0)
             if name in ('size', 'length'):
                 return self.L
+        if callee.get('repo') and it.prog.funcs.get(callee['id']) is not None:
+            return NotImplemented        # small helpers of the library are inlined
         if name == 'isdigit':
             v = it.ev(fr, args[0], depth)
             if isinstance(v, Sym) and isinstance(v.tag, tuple) and v.tag[0] == 'CH':
@@ -181,7 +183,7 @@ class BoolInterp(Interp):
 
 def bool_outcomes(prog, f, text):
     model = BoolModel(text)
-    it = Interp(prog, model, max_depth=0, max_paths=3000)
+    it = Interp(prog, model, max_depth=2, max_paths=3000)
 
     def init(it_, fr):
         fr.env[f.params[0]['d']] = Sym('VIEW')
@@ -279,6 +281,34 @@ def run(prog, rep):
 
     rep.rule('R16.4', 'bool parser decision table over character classes and lengths', floor=25)
     check_bool_parser(prog, rep)
+
+    rep.rule('R16.6', 'code units read from the text are never narrowed before they are compared or classified: no conversion from '
+                      'char16_t/char32_t/wchar_t to a narrower type in the parsers of convert_fundamental.h (a narrowed U+2009 compares equal to a blank)', floor=6)
+    wide = {'char16_t': 16, 'char32_t': 32, 'wchar_t': 32}
+    n6 = 0
+    for f in sorted(prog.funcs.values(), key=lambda g: g.id):
+        if f.body is None or f.relfile != FUND or f.name != 'To' or len(f.params) != 2:
+            continue
+        mm = re.search(r'basic_string_view<(char16_t|char32_t|wchar_t)>', f.type(f.params[0]))
+        if not mm:
+            continue
+        n6 += 1
+        rep.touch(f)
+        bad = []
+        for n in f.walk():
+            if n.get('ck') == 'IntegralCast' and n.get('c'):
+                src, dst = base_type(f.type(n['c'][0])), base_type(f.type(n))
+                if src in wide and dst in INT_TYPES and INT_TYPES[dst][0] < wide[src] and dst != 'bool':
+                    bad.append((f.loc(n), src, dst))
+        tgt = base_type(f.type(f.params[1]))
+        if bad:
+            rep.finding('R16.6', 'To(%s)|%s narrowed' % ('bool' if tgt == 'bool' else 'number', mm.group(1)), bad[0][0],
+                        'parser of %s text into %s: a %s code unit is converted to %s before it is examined (%s) - non-ASCII characters alias ASCII ones'
+                        % (mm.group(1), tgt, bad[0][1], bad[0][2], bad[0][0]), func=f.id)
+        else:
+            rep.ok('R16.6', 'To(%s <- %s)' % (tgt, mm.group(1)))
+    if n6 < 6:
+        raise AnalysisBroken('R16.6: only %d wide-text parsers instantiated' % n6)
 
     rep.rule('R16.5', 'wide strings: parsers narrow through Utf8::Encode then use the char parser; printers widen through Utf8::Decode', floor=4)
     n5 = 0
